@@ -94,10 +94,16 @@ def random_cases(rng, n, handled):
     for _ in range(n):
         nc = rng.choice([2, 3, 3, 4])
         w = {"nclients": nc, "online": [rng.random() < 0.85 for _ in range(nc)], "mappings": [], "codes": [], "domains": []}
+        socks_left = 1     # the default DNS target of a client with several SOCKS mappings depends on storage iteration order
         for _ in range(rng.randrange(0, 5)):
             l = rng.choice([0] + list(range(1, nc + 1)) * 4)
             t = rng.choice([0] + list(range(1, nc + 1)) * 4)
-            w["mappings"].append({"l": l, "t": t, "proto": rng.choice(["tcp", "socks"])})
+            proto = rng.choice(["tcp", "socks"])
+            if proto == "socks":
+                if not socks_left:
+                    proto = "tcp"
+                socks_left = 0
+            w["mappings"].append({"l": l, "t": t, "proto": proto})
         for _ in range(rng.randrange(0, 3)):
             w["codes"].append({"t": rng.randrange(1, nc + 1), "act": rng.choice([0, 0, rng.randrange(1, nc + 1)])})
         for _ in range(rng.randrange(0, 3)):
@@ -319,7 +325,8 @@ def run(ctx, only_cases=None):
     try:
         res, pred = vlib.model_eval(PROP, terms, predict=True)
         mism = [i for i, ok in enumerate(res) if not ok]
-        small = [i for i in range(len(terms)) if len(mcases[i][0]["steps"]) <= 8][:: max(1, len(terms) // 30)][:30]
+        cand = [i for i in range(len(terms)) if len(mcases[i][0]["steps"]) <= 10]
+        small = cand[:: max(1, len(cand) // 30)][:30]
         vm_bad = sorted(small[k] for k in vlib.vm_crosscheck(PROP, [terms[i] for i in small]))
         ext_bad = sorted(i for i in small if not res[i])
         if vm_bad != ext_bad:
